@@ -26,13 +26,21 @@ impl Wake for CountWaker {
 pub struct Hook {
     wakes: AtomicU32,
     gate: std::sync::Mutex<Option<Box<dyn FnOnce() + Send>>>,
+    /// one-shot action run when the waker is woken (the woken task "runs at once")
+    wake_gate: std::sync::Mutex<Option<Box<dyn FnOnce() + Send>>>,
 }
 impl Hook {
     fn new() -> Arc<Hook> {
-        Arc::new(Hook { wakes: AtomicU32::new(0), gate: std::sync::Mutex::new(None) })
+        Arc::new(Hook { wakes: AtomicU32::new(0), gate: std::sync::Mutex::new(None), wake_gate: std::sync::Mutex::new(None) })
     }
     fn fire(&self) {
         let g = self.gate.lock().unwrap().take();
+        if let Some(g) = g {
+            g()
+        }
+    }
+    fn fire_wake(&self) {
+        let g = self.wake_gate.lock().unwrap().take();
         if let Some(g) = g {
             g()
         }
@@ -57,10 +65,12 @@ mod rawhook {
     unsafe fn wake(p: *const ()) {
         let h = unsafe { Arc::from_raw(p as *const Hook) };
         h.wakes.fetch_add(1, Ordering::SeqCst);
+        h.fire_wake();
     }
     unsafe fn wake_by_ref(p: *const ()) {
         let h = unsafe { &*(p as *const Hook) };
         h.wakes.fetch_add(1, Ordering::SeqCst);
+        h.fire_wake();
     }
     unsafe fn drop_raw(p: *const ()) {
         drop(unsafe { Arc::from_raw(p as *const Hook) });
@@ -219,6 +229,75 @@ impl Model for ChanModel {
                 let woken = self.wakers[k].wakes.load(Ordering::SeqCst);
                 let prevw = if prev != 0 && prev != k { self.wakers[prev].wakes.load(Ordering::SeqCst) } else { 0 };
                 json!({"res": res, "woken": woken, "prev": prevw})
+            }
+            "SendWokenRuns" => {
+                // the task woken by the send runs at once: another thread polls the receiver the moment wake() is called
+                let k = op["k"].as_u64().unwrap() as usize;
+                let v = op["v"].as_u64().unwrap() as u32;
+                let hook = self.wakers[k].clone();
+                let (go_tx, go_rx) = std::sync::mpsc::channel::<()>();
+                let (done_tx, done_rx) = std::sync::mpsc::channel::<()>();
+                *hook.wake_gate.lock().unwrap() = Some(Box::new(move || {
+                    let _ = go_tx.send(());
+                    // in correct code the polling thread is held back by the critical section of the send we are in (if the
+                    // waker is called inside it) or finds the value already there
+                    let _ = done_rx.recv_timeout(std::time::Duration::from_millis(150));
+                }));
+                let waker = rawhook::waker(hook.clone());
+                let r: Poll<Result<u32, ()>> = match &mut self.ch {
+                    Chan::Oneshot(s, r) => {
+                        let snd = s.take();
+                        std::thread::scope(|sc| {
+                            let h = sc.spawn(move || {
+                                let _ = go_rx.recv();
+                                let mut cx = Context::from_waker(&waker);
+                                let x = r.as_mut().poll(&mut cx).map(|x| x.map_err(|_| ()));
+                                let _ = done_tx.send(());
+                                x
+                            });
+                            if let Some(snd) = snd { snd.send(v) }
+                            hook.wake_gate.lock().unwrap().take();
+                            h.join().unwrap()
+                        })
+                    }
+                    Chan::Mpsc(s, r) => {
+                        let snd = s.first();
+                        std::thread::scope(|sc| {
+                            let h = sc.spawn(move || {
+                                let _ = go_rx.recv();
+                                let mut cx = Context::from_waker(&waker);
+                                let mut f = std::pin::pin!(r.receive());
+                                let x = f.as_mut().poll(&mut cx).map(|x| x.ok_or(()));
+                                let _ = done_tx.send(());
+                                x
+                            });
+                            if let Some(snd) = snd { let _ = snd.send(v); }
+                            hook.wake_gate.lock().unwrap().take();
+                            h.join().unwrap()
+                        })
+                    }
+                    Chan::Notif(s, r) => {
+                        let snd = s.first();
+                        std::thread::scope(|sc| {
+                            let h = sc.spawn(move || {
+                                let _ = go_rx.recv();
+                                let mut cx = Context::from_waker(&waker);
+                                let x = r.as_mut().poll(&mut cx).map(|x| x.map(|_| 1).map_err(|_| ()));
+                                let _ = done_tx.send(());
+                                x
+                            });
+                            if let Some(snd) = snd { snd.notify(); }
+                            hook.wake_gate.lock().unwrap().take();
+                            h.join().unwrap()
+                        })
+                    }
+                };
+                let res = match r {
+                    Poll::Ready(Ok(v)) => { self.received.push(v); "Ready" }
+                    Poll::Ready(Err(())) => "Disconnected",
+                    Poll::Pending => "Pending",
+                };
+                json!({"res": res, "woken": self.wakers[k].wakes.load(Ordering::SeqCst)})
             }
             "Poll" => {
                 let k = op["k"].as_u64().unwrap() as usize;
